@@ -666,6 +666,8 @@ class Engine:
             v = (fr.get("subst") or {}).get(nm)
             if isinstance(v, str) and re.match(r"^\d+(_?[iu](8|16|32|64|128|size))?$", v):
                 return C(int(re.match(r"^\d+", v).group(0)), ty if ty in INT_BITS else "usize")
+            if v in ("true", "false") and ty == "bool":
+                return TRUE if v == "true" else FALSE
             return ("tyconst", o["tyconst"], ty)
         return unknown("const " + ty)
 
